@@ -326,7 +326,11 @@ class FlowFields(ImageBatch):
             padding=padding,
             align_corners=align_corners,
         )
-        return image._make_instance(data, self._grid)
+        grids = self._grid
+        if len(grids) == 1 and data.shape[0] > 1:
+            # single flow field applied to each image in batch
+            grids = grids * data.shape[0]
+        return image._make_instance(data, grids)
 
     def __repr__(self) -> str:
         return (
